@@ -294,7 +294,7 @@ class Run:
             cmd += ["--pinned", json.dumps(pinned)]
         if scan:
             # novelty scan (harness/cmd/vh/scan.go): explore scan[0] generated calls on the real code, record the scan[1] rarest behaviour classes
-            cmd += ["--scan", str(scan[0]), "--scan-keep", str(scan[1]), "--scan-setter-percent", str(scan[2])]
+            cmd += ["--scan", str(scan[0]), "--scan-keep", str(scan[1]), "--scan-setter-percent", str(scan[2])] + (["--scan-vocab", scan[3]] if len(scan) > 3 and scan[3] else [])
         if host_alphabet:
             cmd += ["--host-alphabet", json.dumps(host_alphabet), "--host-len", str(host_len)]
         module = "Trace_Api"
